@@ -1,10 +1,8 @@
 package g_ext
 
 import (
-	"bytes"
 	"encoding/json"
 	"fmt"
-	"io"
 	"net/http"
 	"net/http/httptest"
 	"os"
@@ -99,22 +97,32 @@ func (o *blobOrigin) hitCount(path string) int {
 
 // ---- zstd helpers of the harness (inputs and independent decoding) ----
 
+var (
+	zstdEncOnce sync.Once
+	zstdEnc     *zstd.Encoder
+	zstdDec     *zstd.Decoder
+)
+
+func zstdInit() {
+	zstdEncOnce.Do(func() {
+		var err error
+		if zstdEnc, err = zstd.NewWriter(nil, zstd.WithEncoderLevel(zstd.SpeedFastest), zstd.WithEncoderConcurrency(1)); err != nil {
+			panic(err)
+		}
+		if zstdDec, err = zstd.NewReader(nil, zstd.WithDecoderConcurrency(1), zstd.WithDecoderMaxMemory(1<<30)); err != nil {
+			panic(err)
+		}
+	})
+}
+
 func zstdCompress(raw []byte) []byte {
-	enc, err := zstd.NewWriter(nil, zstd.WithEncoderLevel(zstd.SpeedFastest))
-	if err != nil {
-		panic(err)
-	}
-	defer enc.Close()
-	return enc.EncodeAll(raw, nil)
+	zstdInit()
+	return zstdEnc.EncodeAll(raw, nil)
 }
 
 func zstdDecompress(data []byte) ([]byte, error) {
-	dec, err := zstd.NewReader(bytes.NewReader(data))
-	if err != nil {
-		return nil, err
-	}
-	defer dec.Close()
-	return io.ReadAll(dec)
+	zstdInit()
+	return zstdDec.DecodeAll(data, nil)
 }
 
 // ---- known-finding lookup used by generators that must stay out of a
